@@ -84,6 +84,9 @@ pub struct FCase {
     pub ip_map_pages: u8,
     pub stop_failspot: bool,
     pub cue_exiters: bool,
+    /// separate (differently protected) mappings directly below / above the crash-ip mapping
+    #[serde(default)]
+    pub ip_neighbors: (bool, bool),
 }
 
 pub struct Obs {
@@ -184,7 +187,17 @@ pub fn run_case(c: &FCase) -> Result<Obs, RunErr> {
     }
     // isolated executable mapping for the crash instruction pointer
     let ip_pages = (c.ip_map_pages as u64 % 4) + 1;
-    let (_, ip_addr) = b.add_anon(ip_pages, 5, 0x1517_0000);
+    let (_, ip_addr0) = b.add_anon(ip_pages + 2, 5, 0x1517_0000);
+    // re-place: [neighbor below rw-][ip mapping r-x][neighbor above rw-], neighbors optional
+    b.spec.maps.pop();
+    let ip_addr = ip_addr0 + PAGE;
+    if c.ip_neighbors.0 {
+        b.add_anon_at(ip_addr - PAGE, 1, 3, 0x0BE1_0000);
+    }
+    b.add_anon_at(ip_addr, ip_pages, 5, 0x1517_0000);
+    if c.ip_neighbors.1 {
+        b.add_anon_at(ip_addr + ip_pages * PAGE, 1, 3, 0x0AB0_0000);
+    }
     let spec = b.spec.clone();
     let mut t = Target::spawn(&spec, scratch).map_err(|e| RunErr::Inconclusive(format!("target setup: {}", e.split(':').next().unwrap_or(""))))?;
     if !t.wait_settled(&spec) {
@@ -361,8 +374,9 @@ pub fn case_strategy(max_threads: usize, min_threads: usize) -> impl Strategy<Va
         any::<u8>(),
         proptest::bool::weighted(0.25),
         any::<bool>(),
+        (any::<bool>(), any::<bool>()),
     )
-        .prop_map(|(mut threads, blamed, crash, limit, app_maps, app, ip_map_pages, stop_failspot, cue_exiters)| {
+        .prop_map(|(mut threads, blamed, crash, limit, app_maps, app, ip_map_pages, stop_failspot, cue_exiters, ip_neighbors)| {
             let mut burners = 0;
             for t in threads.iter_mut() {
                 if t.kind == K_SPINNER || t.kind == K_NULLSP {
@@ -372,7 +386,7 @@ pub fn case_strategy(max_threads: usize, min_threads: usize) -> impl Strategy<Va
                     }
                 }
             }
-            FCase { threads, blamed, crash, limit, app_maps, app, ip_map_pages, stop_failspot, cue_exiters }
+            FCase { threads, blamed, crash, limit, app_maps, app, ip_map_pages, stop_failspot, cue_exiters, ip_neighbors }
         })
 }
 
